@@ -98,10 +98,12 @@ type vC19Run struct {
 	data     *vIntern
 	under    *vC19Under
 	o        *backgroundObserver
+	top      TokenDataObserver // what the caller talks to: o itself, or a composite observer built over o
 	W        int
 	ttl      time.Duration
 	start    time.Time
 	inflight []vC19Call
+	total    int // messages handed to the queue and not yet returned by a fetch (waiting + picked up)
 	closed   bool
 	setLo    map[uint64]time.Time
 	setHi    map[uint64]time.Time
@@ -142,12 +144,18 @@ func (h *vC19Run) settle() {
 			}
 		}
 	}
+	// quiet = every message handed to the queue is either still waiting or has reached the gate, and no worker idles
+	// while something waits (a worker that has dequeued but not yet called the underlying observer is still on its way)
+	quiet := func() bool {
+		q := h.o.msgQueue.size()
+		return len(h.inflight)+q >= h.total && (len(h.inflight) >= h.W || q == 0)
+	}
 	for {
 		drain()
-		if h.closed || len(h.inflight) >= h.W || h.o.msgQueue.size() == 0 || time.Now().After(deadline) {
-			time.Sleep(400 * time.Microsecond)
+		if h.closed || quiet() || time.Now().After(deadline) {
+			time.Sleep(300 * time.Microsecond)
 			drain()
-			if h.closed || len(h.inflight) >= h.W || h.o.msgQueue.size() == 0 || time.Now().After(deadline) {
+			if h.closed || quiet() || time.Now().After(deadline) {
 				return
 			}
 		}
@@ -201,6 +209,21 @@ func (h *vC19Run) observe(ms []vC19Msg) {
 		}
 		in[cciptypes.ChainSelector(m.chain)][cciptypes.SeqNum(m.seq)] = m.msg()
 	}
+	// how many of these will be handed to the queue (asked of the observer's own cache and id set; if those are wrong
+	// the wait below simply runs into its deadline and the probe shows what is there)
+	counted := map[uint64]bool{}
+	for _, m := range ms {
+		if counted[m.idn] {
+			continue
+		}
+		counted[m.idn] = true
+		if _, ok := h.o.cachedTokenData.get(vC19ID(m.idn)); ok {
+			continue
+		}
+		if !h.o.msgQueue.containsMsg(vC19ID(m.idn)) {
+			h.total++
+		}
+	}
 	t0 := time.Now()
 	type res struct {
 		out exectypes.TokenDataObservations
@@ -208,7 +231,7 @@ func (h *vC19Run) observe(ms []vC19Msg) {
 	}
 	done := make(chan res, 1)
 	go func() {
-		out, err := h.o.Observe(context.Background(), in)
+		out, err := h.top.Observe(context.Background(), in)
 		done <- res{out, err}
 	}()
 	h.evs = append(h.evs, cApp("BObserve", cMap(ms, vC19Msg.coq), cN(h.us(t0))))
@@ -281,6 +304,7 @@ func (h *vC19Run) expiresAt(id uint64) (time.Time, bool) {
 func (h *vC19Run) ret(idx int, m vC19Msg, class string) {
 	call := h.inflight[idx]
 	id := call.id
+	h.total--
 	h.inflight = append(h.inflight[:idx:idx], h.inflight[idx+1:]...)
 	r := h.r
 	var f vC19Fetch
@@ -358,7 +382,7 @@ func vC19Pool() []vC19Msg {
 }
 
 // one schedule on a fresh observer; returns false when the sample has to be thrown away (timing)
-func vC19Schedule(t *testing.T, r *vRand, cls string, sink *vSink) bool {
+func vC19Schedule(t *testing.T, r *vRand, cls string, sink *vSink, composite bool) bool {
 	pool := vC19Pool()
 	byID := map[uint64]vC19Msg{}
 	for _, m := range pool[:8] {
@@ -384,6 +408,17 @@ func vC19Schedule(t *testing.T, r *vRand, cls string, sink *vSink) bool {
 	baseline := runtime.NumGoroutine()
 	h.start = time.Now()
 	h.o = NewBackgroundObserver(mocks.NullLogger, h.under, h.W, h.ttl, cleanup, timeout).(*backgroundObserver)
+	h.top = h.o
+	passThrough := true
+	if composite {
+		h.top = NewCompositeObservers(mocks.NullLogger, h.o)
+		for _, b := range []byte{0, 1} {
+			tok := cciptypes.RampTokenAmount{ExtraData: cciptypes.Bytes{b}}
+			if h.top.IsTokenSupported(1, tok) != h.under.IsTokenSupported(1, tok) {
+				passThrough = false
+			}
+		}
+	}
 
 	pick := func() []vC19Msg {
 		n := r.Range(1, 5)
@@ -503,7 +538,7 @@ func vC19Schedule(t *testing.T, r *vRand, cls string, sink *vSink) bool {
 	h.show = append(h.show, "close")
 	h.closed = true
 	closeDone := make(chan struct{})
-	go func() { _ = h.o.Close(); close(closeDone) }()
+	go func() { _ = h.top.Close(); close(closeDone) }()
 	closeOK := true
 	if !h.blocked {
 		// in-flight fetches: returned now, or (class never) left to run into the observe timeout
@@ -552,7 +587,12 @@ wait:
 	}
 	in := cTup(cNi(h.W), cN(uint64(h.ttl/time.Microsecond)), cList(h.evs))
 	out := cPair(cList(h.outs), cPair(cBool(closeOK), cBool(noLeak)))
-	sink.Emit("bg", cls, len(h.evs) >= 6, cPair(in, out), strings.Join(h.show, " "))
+	part := "bg"
+	if composite {
+		part = "comp"
+		out = cPair(out, cBool(passThrough))
+	}
+	sink.Emit(part, cls, len(h.evs) >= 6, cPair(in, out), strings.Join(h.show, " "))
 	return true
 }
 
@@ -565,7 +605,25 @@ func TestVerif_C19(t *testing.T) {
 	for i := 0; i < n; i++ {
 		cls := classes[i%len(classes)]
 		for try := 0; try < 5; try++ {
-			if vC19Schedule(t, r, cls, sink) {
+			if vC19Schedule(t, r, cls, sink, false) {
+				break
+			}
+		}
+	}
+}
+
+// the same schedules through NewCompositeObservers(NewBackgroundObserver(gated observer)): Observe, IsTokenSupported
+// and Close of the composite
+func TestVerif_C19_comp(t *testing.T) {
+	r := vNewRand(vSeed() + 1902)
+	n := vEnvInt("VERIF_N", 60)
+	sink := vOpenSink("C19_comp")
+	defer sink.Close()
+	classes := []string{"mixed", "refetch", "saturate", "never", "mixed", "refetch"}
+	for i := 0; i < n; i++ {
+		cls := classes[i%len(classes)]
+		for try := 0; try < 5; try++ {
+			if vC19Schedule(t, r, cls, sink, true) {
 				break
 			}
 		}
